@@ -4,6 +4,9 @@ package home
 
 import (
 	"fmt"
+	"go/ast"
+	"go/parser"
+	"go/token"
 	"math/rand/v2"
 	"net/http"
 	"net/netip"
@@ -11,6 +14,7 @@ import (
 	"net/url"
 	"os"
 	"path/filepath"
+	"runtime"
 	"runtime/debug"
 	"slices"
 	"strings"
@@ -262,6 +266,40 @@ func (b *c12Block) exec(f []string) (out []string) {
 		handleLogout(httptest.NewRecorder(), r)
 
 		return append([]string{"ok"}, b.dump()...)
+	case "C12.logoutrace":
+		// A logout and a request with the same cookie overlap: the harness
+		// holds bbolt's single writer, so the logout parks inside
+		// removeSessionFromFile (whatever it has done before), then the
+		// request runs (and parks in storeSession if it has to write), then
+		// the writer is released.
+		a := globalContext.auth
+		cookie := b.cookie(vutil.Atoi(f[1]))
+		tx, err := a.db.Begin(true)
+		if err != nil {
+			panic(err)
+		}
+		logoutDone, reqDone := make(chan struct{}), make(chan struct{})
+		go func() {
+			defer close(logoutDone)
+			r := httptest.NewRequest(http.MethodGet, "/control/logout", nil)
+			r.AddCookie(&http.Cookie{Name: sessionCookieName, Value: cookie})
+			handleLogout(httptest.NewRecorder(), r)
+		}()
+		c12WaitParked(logoutDone, "removeSessionFromFile")
+		called := false
+		go func() {
+			defer close(reqDone)
+			h := optionalAuth(func(http.ResponseWriter, *http.Request) { called = true })
+			r := httptest.NewRequest(http.MethodGet, "/control/status", nil)
+			r.AddCookie(&http.Cookie{Name: sessionCookieName, Value: cookie})
+			h(httptest.NewRecorder(), r)
+		}()
+		c12WaitParked(reqDone, "checkSession")
+		_ = tx.Rollback()
+		<-logoutDone
+		<-reqDone
+
+		return append([]string{vutil.B(called)}, b.dump()...)
 	case "C12.dbfail":
 		// the sessions file cannot be written any more (a read-only handle
 		// stands for EIO / ENOSPC / a read-only file system) / can again
@@ -286,6 +324,86 @@ func (b *c12Block) exec(f []string) (out []string) {
 	default:
 		panic("unknown op " + f[0])
 	}
+}
+
+// c12WaitParked spins until done is closed or some goroutine is parked on a
+// mutex below the function fn of package home (i.e. waits for bbolt's writer).
+func c12WaitParked(done chan struct{}, fn string) {
+	i := 0
+	defer func() {
+		if os.Getenv("VERIF_C12_DEBUG") != "" {
+			fmt.Fprintln(os.Stderr, "wait", fn, i)
+		}
+	}()
+	buf := make([]byte, 1<<20)
+	for ; i < 200000; i++ {
+		select {
+		case <-done:
+			return
+		default:
+		}
+		runtime.Gosched()
+		if i%8 != 7 {
+			continue
+		}
+		n := runtime.Stack(buf, true)
+		for _, g := range strings.Split(string(buf[:n]), "\n\n") {
+			hdr, _, _ := strings.Cut(g, "\n")
+			if strings.Contains(hdr, "Mutex.Lock") && strings.Contains(g, "home.(*Auth)."+fn) &&
+				strings.Contains(g, "beginRWTx") {
+				return
+			}
+		}
+	}
+}
+
+// c12LogoutOrder extracts from the source of removeSession whether the map
+// entry is deleted before the file entry.
+func c12LogoutOrder() string {
+	fset := token.NewFileSet()
+	file, err := parser.ParseFile(fset, "auth.go", nil, 0)
+	if err != nil {
+		return "unknown:" + vutil.Hex(err.Error())
+	}
+	for _, d := range file.Decls {
+		fd, ok := d.(*ast.FuncDecl)
+		if !ok || fd.Name.Name != "removeSession" || fd.Body == nil {
+			continue
+		}
+		memPos, filePos := token.NoPos, token.NoPos
+		deferred := false
+		ast.Inspect(fd.Body, func(n ast.Node) bool {
+			switch x := n.(type) {
+			case *ast.DeferStmt:
+				if id, isID := x.Call.Fun.(*ast.Ident); isID && id.Name == "delete" {
+					deferred = true
+				}
+			case *ast.CallExpr:
+				switch fun := x.Fun.(type) {
+				case *ast.Ident:
+					if fun.Name == "delete" && memPos == token.NoPos {
+						memPos = x.Pos()
+					}
+				case *ast.SelectorExpr:
+					if fun.Sel.Name == "removeSessionFromFile" && filePos == token.NoPos {
+						filePos = x.Pos()
+					}
+				}
+			}
+
+			return true
+		})
+		switch {
+		case memPos == token.NoPos || filePos == token.NoPos || deferred:
+			return "unknown"
+		case memPos < filePos:
+			return "memfirst"
+		default:
+			return "filefirst"
+		}
+	}
+
+	return "unknown"
 }
 
 // c12Bubble serves one block.
@@ -339,6 +457,9 @@ func c12EndBlock() {
 
 func c12Run(f []string) []string {
 	res := make(chan []string, 1)
+	if f[0] == "C12.logoutorder" {
+		return []string{c12LogoutOrder()}
+	}
 	if f[0] == "C12.reset" {
 		c12EndBlock()
 		c12Cmds, c12Done = make(chan c12Cmd), make(chan struct{})
@@ -357,6 +478,7 @@ func c12Run(f []string) []string {
 func c12Gen(r *rand.Rand, emit vutil.Emit) {
 	blocks := vutil.N(300)
 	const sec = 1_000_000_000
+	emit("C12.logoutorder")
 	for b := 0; b < blocks; b++ {
 		ma := 1 + r.IntN(5)
 		bm := vutil.Pick(r, []int{1, 1, 2, 15})
@@ -494,9 +616,22 @@ func c12Gen(r *rand.Rand, emit vutil.Emit) {
 					if faults && r.IntN(5) == 0 {
 						emit("C12.dbfail", vutil.Itoa(r.IntN(2)))
 					}
-					switch r.IntN(8) {
+					switch r.IntN(9) {
 					case 0:
 						emit("C12.restart")
+					case 8:
+						// logout overlapping a request with the same cookie,
+						// often the first authenticated one of a UTC day
+						if r.IntN(2) == 0 {
+							sleep(vutil.Pick(r, []int{86400 * sec, 43200 * sec, 86400*sec - ttl*sec, ttl * sec / 2}))
+						}
+						if faults {
+							emit("C12.dbfail", "0")
+						}
+						emit("C12.logoutrace", vutil.Itoa(slot))
+						if r.IntN(2) == 0 {
+							emit("C12.restart")
+						}
 					case 1:
 						emit("C12.logout", vutil.Itoa(slot))
 					case 2, 3:
